@@ -98,6 +98,20 @@ func init() {
 	}
 }
 
+// verifSelectRandn is selectgo's own random stream under the seam: cheaprand is shared with many
+// runtime-internal users (pcvalue cache eviction, semaphore queues, ...) whose call counts vary from
+// run to run, so a select with several ready cases would otherwise pick differently in identical runs.
+//
+//go:nosplit
+func verifSelectRandn(n uint32) uint32 {
+	if verifMapRand == 0 {
+		return cheaprandn(n)
+	}
+	verifCheap += 0xa0761d6478bd642f
+	hi, lo := math.Mul64(verifCheap, verifCheap^0xe7037ed1a0b428db)
+	return uint32((uint64(uint32(hi^lo)) * uint64(n)) >> 32)
+}
+
 // VerifSetMapRand switches the constant used for map seeds / iteration offsets (0 = runtime default).
 func VerifSetMapRand(v uint64) { verifMapRand = v; verifCheap = v; verifStream = v }
 
@@ -115,16 +129,11 @@ def gen_runtime_rand():
     b = "func maps_rand() uint64 {\n\treturn rand()\n}"
     c = "func cheaprand() uint32 {\n\tmp := getg().m\n"
     d = "func rand() uint64 {\n"
-    for anchor in (a, b, c, d):
+    for anchor in (a, b, d):
         if src.count(anchor) != 1:
             raise SystemExit("runtime/rand.go: anchor not found: " + anchor[:30])
     src = src.replace(a, "func rand32() uint32 {\n\tif verifMapRand != 0 {\n\t\treturn uint32(verifMapRand)\n\t}\n\treturn uint32(rand())\n}")
     src = src.replace(b, "func maps_rand() uint64 {\n\tif verifMapRand != 0 {\n\t\treturn verifMapRand\n\t}\n\treturn rand()\n}")
-    src = src.replace(
-        c,
-        "func cheaprand() uint32 {\n\tif verifMapRand != 0 {\n\t\tverifCheap += 0xa0761d6478bd642f\n"
-        "\t\thi, lo := math.Mul64(verifCheap, verifCheap^0xe7037ed1a0b428db)\n\t\treturn uint32(hi ^ lo)\n\t}\n\tmp := getg().m\n",
-    )
     # runtime.rand itself: compiler-generated code seeds non-escaping (stack allocated) maps with it,
     # math/rand/v2's top-level functions draw from it. Under the seam it is a deterministic splitmix64
     # stream (not a constant: rejection-sampling callers must see varying values).
@@ -135,6 +144,14 @@ def gen_runtime_rand():
         1,
     )
     return src + RUNTIME_PATCH_TAIL
+
+
+def gen_runtime_select():
+    src = open(os.path.join(GOROOT, "src/runtime/select.go")).read()
+    a = "cheaprandn(uint32(norder + 1))"
+    if src.count(a) != 1:
+        raise SystemExit("runtime/select.go: anchor not found")
+    return src.replace(a, "verifSelectRandn(uint32(norder + 1))")
 
 
 def write_if_changed(path, content):
@@ -203,6 +220,9 @@ def gen_overlay(group):
     rt = os.path.join(BUILD, "gen", "runtime_rand.go.txt")
     write_if_changed(rt, gen_runtime_rand())
     repl[os.path.join(GOROOT, "src/runtime/rand.go")] = rt
+    rs = os.path.join(BUILD, "gen", "runtime_select.go.txt")
+    write_if_changed(rs, gen_runtime_select())
+    repl[os.path.join(GOROOT, "src/runtime/select.go")] = rs
 
     def map_dir(srcdir, dstdir, prefix=""):
         if not os.path.isdir(srcdir):
